@@ -13,7 +13,7 @@
 (*   part                -> C19   WHERE partitions rows                    *)
 (*   read                -> C11   read queries against the reference       *)
 (***************************************************************************)
-EXTENDS CypherSem, Json, IOUtils
+EXTENDS CypherUpdate, Json, IOUtils
 
 Rec == ndJsonDeserialize(IOEnv.TRACE)
 
@@ -453,12 +453,44 @@ TLim ==
                            full_rows |-> NRows, query |-> Rec[l].query]))
   /\ l' = l + 1 /\ UNCHANGED <<ovf, gr, ixpre, firstlab>>
 
+(***************************************************************************)
+(* upd (C12 / C13): an update statement against the reference ApplyStmt.   *)
+(* The graph dumped after the statement must equal the predicted graph up  *)
+(* to node identity; a statement the reference rejects must fail and a     *)
+(* failed statement must leave the graph as it was.                        *)
+(***************************************************************************)
+TUpd ==
+  /\ IsCase("upd")
+  /\ LET out == ApplyStmt(gr, Meta.ast)
+         obs == Rec[l].graph
+         sizes(G) == <<Len(G.nodes), Len(LiveRelSeq(G))>>
+     IN IF out.ok THEN
+          (IF ~IsRows THEN Emit(Finding("C12", "statement-failed", [err |-> Res.err, query |-> Rec[l].query]))
+           ELSE LET d == GraphDiff(out.g, obs) IN
+                IF d = "" THEN TRUE
+                ELSE IF OrderDependent(gr, Meta.ast) THEN TRUE    \* no single predicted graph: not judged
+                ELSE Emit(Finding("C12", d, [cause |-> LET alt == ApplyStmtU(gr, Meta.ast, "stmt", FALSE)
+                                                            alt2 == ApplyStmtU(gr, Meta.ast, "clause", FALSE) IN
+                                                        IF alt.ok /\ GraphDiff(alt.g, obs) = ""
+                                                        THEN "update-expressions-read-the-pre-statement-graph"
+                                                        ELSE IF alt2.ok /\ GraphDiff(alt2.g, obs) = ""
+                                                        THEN "update-expressions-read-the-graph-at-clause-start" ELSE "none",
+                                             before |-> sizes(gr), predicted |-> sizes(out.g), observed |-> sizes(obs),
+                                             rep |-> Meta.rep, query |-> Rec[l].query])))
+        ELSE
+          (IF IsRows THEN Emit(Finding("C14", "statement-should-fail", [why |-> out.why, query |-> Rec[l].query]))
+           ELSE LET d == GraphDiff(gr, obs) IN
+                IF d = "" THEN TRUE
+                ELSE Emit(Finding("C13", "failed-statement-changed-the-graph", [diff |-> d, err |-> Res.err, query |-> Rec[l].query])))
+  /\ gr' = Rec[l].graph
+  /\ l' = l + 1 /\ UNCHANGED <<ovf, ixpre, firstlab>>
+
 TOtherCase ==
   /\ l <= Len(Rec) /\ Rec[l].ev = "case"
-  /\ Rec[l].kind \notin {"truth3", "cmp", "arith", "order", "agg", "err", "part", "read", "idx", "write", "admin", "lim"}
+  /\ Rec[l].kind \notin {"truth3", "cmp", "arith", "order", "agg", "err", "part", "read", "idx", "write", "admin", "lim", "upd"}
   /\ l' = l + 1 /\ UNCHANGED <<ovf, gr, ixpre, firstlab>>
 
-Next == TSession \/ TRead \/ TWrite \/ TLim \/ TTruth3 \/ TCmp \/ TArith \/ TOrder \/ TAgg \/ TErr \/ TPart \/ TOtherCase
+Next == TSession \/ TRead \/ TWrite \/ TLim \/ TUpd \/ TTruth3 \/ TCmp \/ TArith \/ TOrder \/ TAgg \/ TErr \/ TPart \/ TOtherCase
 Spec == Init /\ [][Next]_vars
 
 TraceAccepted ==
